@@ -251,3 +251,38 @@ func NodeIDs(g *Graph, d map[string]PVal) []string {
 	}
 	return sortedKeys(set)
 }
+
+// DenoteTagged is Denote with every result tagged by whether the leaf step
+// that produced it was an inverse step. It models one recorded defect (the
+// implementation represents a node reached by an inverse final step as the
+// node object and one reached by a forward final step as a link object, so the
+// same node reached both ways is two set members); it is used only to give
+// that defect a narrow signature, never to accept a result.
+func (p *PExpr) DenoteTagged(g *Graph, from map[string]PVal) map[string]PVal {
+	out := map[string]PVal{}
+	switch p.Kind {
+	case "pred", "type":
+		tag := "F:"
+		if p.Inv {
+			tag = "I:"
+		}
+		for _, v := range p.Denote(g, from) {
+			out[tag+v.Key()] = v
+		}
+	case "seq":
+		cur := from
+		for i, k := range p.Kids {
+			if i == len(p.Kids)-1 {
+				return k.DenoteTagged(g, cur)
+			}
+			cur = k.Denote(g, cur)
+		}
+	case "alt":
+		for _, k := range p.Kids {
+			for key, v := range k.DenoteTagged(g, from) {
+				out[key] = v
+			}
+		}
+	}
+	return out
+}
